@@ -16,8 +16,11 @@
 // at those points the "other threads" (pop_front by the mutex holder, push_back by the re-started waiter) run to completion.
 //
 //   g++ -std=c++17 -O2 -DNDEBUG -I/repo/include -I/repo/_build/include atomic_list_push_back_aba_lost_node.cpp -o aba && ./aba
-//   expected output ends with:  LOST NODE: B was pushed and never popped/removed, but the list no longer contains it
-//   (without -DNDEBUG the library's own UNIFEX_ASSERT(pred_val == to_value(&sentinel_)) fires instead)
+//   BEFORE the fix (finding C15-atomic-list-aba) the output ends with:
+//       LOST NODE: B was pushed and never popped/removed, but the list no longer contains it
+//   (without -DNDEBUG the library's own UNIFEX_ASSERT(pred_val == to_value(&sentinel_)) fired instead).
+//   AFTER the fix (push_back_impl / drain_into_impl / latch_and_drain_impl re-check pred_val == &sentinel_ under the lock,
+//   unlock unchanged and retry otherwise):  "list now: B V" / "no loss observed", exit status 0.
 #include <atomic>
 #include <cassert>
 #include <cstdint>
